@@ -61,6 +61,9 @@ def main():
     t0 = time.time()
     budget = 12 if tier == 'quick' else 600
     max_states = 2500 if tier == 'quick' else 12000
+    # wall-clock bound of one exploration: the explorer's visited set is a list, a program with tens of thousands of states would
+    # take the better part of an hour; such a program is counted as too big (as one exceeding max_states is)
+    ask_timeout = 20 if tier == 'quick' else 120
     preds = BY_PROP.get(prop, ['live'])
     # fresh certificates (harness/freshcert.py): kernel-checked all-schedule theorems for programs generated in this run
     cert_quota = (1 if shard == 0 else 0) if tier == 'quick' else 2
@@ -96,7 +99,7 @@ def main():
         for pn in preds:
             if pn == 'c06' and not fl['Plain']:
                 continue
-            res = model.ask(M.sx(['modelcheck'] + fields + [['wc', 1], ['pred', PRED[pn]], ['limit', max_states * 8]]))
+            res = model.ask(M.sx(['modelcheck'] + fields + [['wc', 1], ['pred', PRED[pn]], ['limit', max_states * 8]]), timeout=ask_timeout)
             if res.get('states') is None:
                 too_big = True
                 break
@@ -142,7 +145,7 @@ def main():
             for pn, code in PRED.items():
                 if pn in preds or (pn == 'c06' and not fl['Plain']):
                     continue
-                res = model.ask(M.sx(['modelcheck'] + fields + [['wc', 1], ['pred', code], ['limit', max_states * 8]]))
+                res = model.ask(M.sx(['modelcheck'] + fields + [['wc', 1], ['pred', code], ['limit', max_states * 8]]), timeout=ask_timeout)
                 if res.get('states') is None or res['unsafe'] is not None:
                     allsafe = False
             # the certificate is about the program WITH the orders of the real chart: the union of every order the engine used on any
@@ -155,7 +158,7 @@ def main():
                     for pn, code in PRED.items():
                         if pn == 'c06' and not fl['Plain']:
                             continue
-                        res = model.ask(M.sx(['modelcheck'] + cfields + [['wc', 1], ['pred', code], ['limit', max_states * 8]]))
+                        res = model.ask(M.sx(['modelcheck'] + cfields + [['wc', 1], ['pred', code], ['limit', max_states * 8]]), timeout=ask_timeout)
                         same = same and res.get('states') is not None and res['unsafe'] is None
                 if not same:
                     st['fresh_certificates_skipped_order_tables_differ'] += 1
